@@ -222,7 +222,7 @@ func runC16(r *rt.Runner) {
 	}
 	nGL := len(pool)
 	pool = append(pool, agl.DBNames...)
-	nComp := r.N(1600, 16000)
+	nComp := r.N(8000, 160000)
 	for k := 0; k < nComp; k++ {
 		r.Case("composite", func(c *rt.C) {
 			rng := c.Rand()
@@ -313,7 +313,7 @@ func runC16(r *rt.Runner) {
 			checkIV(c, s)
 		}
 	})
-	nIV := r.N(400, 8000)
+	nIV := r.N(2000, 80000)
 	for k := 0; k < nIV; k++ {
 		r.Case("isvalid/random", func(c *rt.C) {
 			rng := c.Rand()
